@@ -9,6 +9,7 @@
 //! allocator. What this cannot encode - different compilers, optimisation levels, layout seeds,
 //! real dynamic loading - is outside the claim.
 
+use crate::common::from_view;
 use cglue::boxed::{CBox, CSliceBox};
 use cglue::callback::{FeedCallback, OpaqueCallback};
 use cglue::iter::CIterator;
@@ -141,7 +142,7 @@ fn foreign_cvec<const IDX: usize>() {
     unsafe { VEC_ARENA_PTR = arena.as_mut_ptr(); }
     let view = CVecView { data: arena.as_mut_ptr(), len: 2, capacity: 2,
                           drop_fn: Some(plugin_vec_drop), reserve_fn: plugin_vec_reserve };
-    let mut v: CVec<u64> = unsafe { core::mem::transmute(view) };
+    let mut v: CVec<u64> = unsafe { from_view(view) };
     assert!(v.len() == 2 && v.capacity() == 2 && v[0] == a && v[1] == b);
     let x: u64 = nd::any();
     // the insertion index is ENUMERATED (one harness each): CBMC 6.11 mis-models memmove with a
@@ -203,7 +204,7 @@ nd::harnesses! {
         let init = cell;
         let addr = &mut cell as *mut u32;
         let view = CBoxView { instance: addr, drop_fn: Some(plugin_box_drop) };
-        let mut b: CBox<u32> = unsafe { core::mem::transmute(view) };
+        let mut b: CBox<u32> = unsafe { from_view(view) };
         assert!(*b == init);
         let w: u32 = nd::any();
         *b = w;
@@ -232,7 +233,7 @@ nd::harnesses! {
         let mut cell: u32 = nd::any();
         let init = cell;
         let view = CBoxView { instance: &mut cell, drop_fn: None };
-        let b: CBox<u32> = unsafe { core::mem::transmute(view) };
+        let b: CBox<u32> = unsafe { from_view(view) };
         assert!(*b == init);
         if nd::any() {
             drop(b.into_opaque());
@@ -254,7 +255,7 @@ nd::harnesses! {
         let orig = arr;
         let addr = arr.as_mut_ptr();
         let view = CSliceBoxView { data: addr, len: 3, drop_fn: Some(plugin_slicebox_drop) };
-        let mut sb: CSliceBox<u16> = unsafe { core::mem::transmute(view) };
+        let mut sb: CSliceBox<u16> = unsafe { from_view(view) };
         assert!(sb.len() == 3 && sb[0] == orig[0] && sb[2] == orig[2]);
         let w: u16 = nd::any();
         sb[1] = w;
@@ -276,7 +277,7 @@ nd::harnesses! {
         let n = nd::range(0, 4);
         let ret = {
             let view = CallbackView { context: &mut ctx, func: plugin_cb };
-            let cb: OpaqueCallback<u8> = unsafe { core::mem::transmute(view) };
+            let cb: OpaqueCallback<u8> = unsafe { from_view(view) };
             items[..n].iter().copied().feed_into(cb)
         };
         let expect = if stop_at < n { stop_at + 1 } else { n };
@@ -297,7 +298,7 @@ nd::harnesses! {
         let mut st = ItState { next: start, end: start + cnt, calls: 0, magic: 0xBEEF };
         {
             let view = IterView { iter: &mut st, func: plugin_next };
-            let mut it: CIterator<u16> = unsafe { core::mem::transmute(view) };
+            let mut it: CIterator<u16> = unsafe { from_view(view) };
             let mut k = 0u16;
             while k < cnt {
                 assert!(it.next() == Some(start + k));
@@ -313,7 +314,7 @@ nd::harnesses! {
         unsafe { BOX_DROPS = 0; }
         let mut cell: u32 = 1;
         let view = CBoxView { instance: &mut cell, drop_fn: Some(plugin_box_drop) };
-        let b: CBox<u32> = unsafe { core::mem::transmute(view) };
+        let b: CBox<u32> = unsafe { from_view(view) };
         drop(b);
         unsafe { assert!(BOX_DROPS == 0, "negative twin: expected to fail") };
     }
